@@ -304,6 +304,24 @@ V['N32-quote-loop-xmp']=[('xmp/reader.go',[("""			if b := bytes.IndexByte(buf[i:
 			}
 			if b >= 0 {""")])]
 
+V['N34-istiff-if-chain']=[('imagetype/imagetype.go',[("""	return len(buf) > 4 &&
+		// BigEndian Tiff Image Header
+		IsTiffBigEndian(buf[:4]) ||
+		// LittleEndian Tiff Image Header
+		IsTiffLittleEndian(buf[:4])""","""	if len(buf) <= 4 {
+		return IsTiffLittleEndian(buf[:4])
+	}
+	if buf[0] != buf[1] {
+		return false
+	}
+	if buf[0] == 0x49 {
+		return buf[2] == 0x2a && buf[3] == 0x00
+	}
+	if buf[0] == 0x4d {
+		return buf[2] == 0x00 && buf[3] == 0x2a
+	}
+	return false""")])]
+
 def build(name, edits, out):
     d=tempfile.mkdtemp(prefix='imverif-neutral-',dir='/var/tmp')
     try:
